@@ -10,10 +10,11 @@ Conventions
   in the *model*; the theorems state the (IEEE-like, NaN-tolerant) laws they need.
 * Recursion is by fuel; running out of fuel is the observable `nofuel` (= the code would
   not terminate), an assertion failure / out-of-range index is `panic`.
-* The convex hull works on integer points `(x, y)`; the cross product is exact.  The sort
-  comparator of the code (cosine of the angle, then distance, both `f32`) is a parameter
-  `le` on decorated entries, so that the structural part (min point, stable sort, dedup,
-  stack scan) can be compared with the code on the code's own sort keys.
+* The convex hull works on integer points `(x, y)`; the cross product is exact (the fixed
+  code computes it in `f64`).  `hullWith` takes the sort comparator as a parameter `le` on
+  decorated entries (the theorems about the scan hold for every comparator, e.g. also for the
+  rounded `f32` cosine keys of the code before the fix); `hullExact` instantiates it with the
+  code's comparator `exactLe`.
 -/
 namespace RtenVerif.Poly
 
@@ -100,9 +101,15 @@ def simplifyPolygon (c : Cmp D) (dist : P → P → P → D) (eps : D) (pts : Li
 /-- Integer point `(x, y)`. -/
 abbrev Pt := Int × Int
 
-/-- `ac.cross_product_norm(bc)` with `ac = a.vec_to(p)`, `bc = b.vec_to(p)` — exact. -/
+/-- `orientation(a, b, p)`: cross product of `a → b` and `a → p`.  The code computes it in
+`f64` from `f32` coordinates, where differences and products are exact (no rounding, overflow
+or underflow for finite `f32` inputs whose exponents are not wildly apart) — modelled exactly. -/
 def cross (a b p : Pt) : Int :=
-  (p.1 - a.1) * (p.2 - b.2) - (p.2 - a.2) * (p.1 - b.1)
+  (b.1 - a.1) * (p.2 - a.2) - (b.2 - a.2) * (p.1 - a.1)
+
+/-- `sq_distance(a, b)`. -/
+def sqDist (a b : Pt) : Int :=
+  (b.1 - a.1) * (b.1 - a.1) + (b.2 - a.2) * (b.2 - a.2)
 
 /-- The `min_by` comparator says `p` is strictly less than `q`: larger `y` first (the code
 compares `-y`), then smaller `x`. -/
@@ -153,22 +160,17 @@ def scan : List Pt → List Pt → List Pt
 def hullWith {α : Type} (pt : α → Pt) (le : α → α → Bool) (xs : List α) : List Pt :=
   (scan ((dedupKey pt (isort le xs)).map pt) []).reverse
 
-/-- The ideal (exact-arithmetic) version of the code's sort comparator relative to the min
-point `m`: `m` itself first (`f32::MIN`), then by the cosine of the angle with the X axis
-(compared exactly through the monotone map `t ↦ t·|t|`), ties by squared distance. -/
+/-- The `sort_by` comparator of `convex_hull` relative to the min point `m`, as "not
+`Greater`": `m` itself first, then by the sign of `orientation(m, p, q)`, collinear points by
+squared distance from `m`. -/
 def exactLe (m p q : Pt) : Bool :=
   if p = m then true
   else if q = m then false
-  else
-    let dxp := p.1 - m.1; let dyp := p.2 - m.2
-    let dxq := q.1 - m.1; let dyq := q.2 - m.2
-    let lp := dxp * dxp + dyp * dyp
-    let lq := dxq * dxq + dyq * dyq
-    let a := dxp * dxp.natAbs * lq
-    let b := dxq * dxq.natAbs * lp
-    if a = b then decide (lp ≤ lq) else decide (a < b)
+  else if cross m p q > 0 then true
+  else if cross m p q < 0 then false
+  else decide (sqDist m p ≤ sqDist m q)
 
-/-- `convex_hull` in exact arithmetic. -/
+/-- `convex_hull`. -/
 def hullExact (pts : List Pt) : List Pt :=
   match minPoint pts with
   | none => []
